@@ -239,8 +239,14 @@ def dsa_boundary_prefixes(L, N):
     m = -(-(1 << (nb - 1)) // (q - 1))
     c = m * (q - 1)
     assert c.bit_length() == nb
-    return [("x=1", c.to_bytes(nb // 8, "big")), ("x=q-1", (c + q - 2).to_bytes(nb // 8, "big")),
-            ("zeros", bytes(nb // 8)), ("ones", b"\xff" * (nb // 8))]
+    # FIPS 186-4 B.1.1: x = (c mod (q-1)) + 1.  Besides the two ends of that map, the neighbours of multiples of q and of
+    # q-1 (where a reduction by the wrong modulus, or a missing "+ 1", leaves [1, q-1]) and of 2^N
+    m2 = -(-(1 << (nb - 1)) // q)
+    out = [("x=1", c), ("x=q-1", c + q - 2), ("c=m(q-1)-1", c - 1), ("c=m(q-1)+q-1", c + q - 1),
+           ("c=mq-1", m2 * q - 1), ("c=mq", m2 * q), ("c=mq+1", m2 * q + 1), ("c=mq+q-1", m2 * q + q - 1),
+           ("c=2^(N+63)+q-1", (1 << (nb - 1)) + q - 1), ("c=2^(N+63)", 1 << (nb - 1))]
+    assert all(v.bit_length() == nb for _, v in out)
+    return [(nm, v.to_bytes(nb // 8, "big")) for nm, v in out] + [("zeros", bytes(nb // 8)), ("ones", b"\xff" * (nb // 8))]
 
 
 # ---------------------------------------------------------------------------
